@@ -1,6 +1,6 @@
 SPEC_PART = dict(
     props_file="C13_tdigest",
-    legs=[dict(family="tdigest", focus="foreign", oracles=["foreign_ok", "tie_ok", "prop_ok"], profiles=["debug", "release"],
+    legs=[dict(family="tdigest", focus="foreign", oracles=["foreign_ok", "prop_ok"], tie_oracles=["tie_ok"], profiles=["debug", "release"],
                mask=[0, 1, 7, 8, 9, 10, 14, 15, 17, 19, 21], n_quick=150, n_thorough=900, panic_is_violation=True)],
     trusted=["tdigest: images are built by the generator's own encoder (tools/families/tdigest.py: enc_own, enc_ref) from random abstract "
              "states; buffered values cannot be observed before the next compression (no hook): they are checked through total_weight and "
